@@ -552,17 +552,34 @@ func (c15) defaultsBesideRefs(c *fw.Case) {
 		props[fmt.Sprintf("p%d", i)] = node
 	}
 	doc["properties"] = props
+	// a document served by the Loader with defaults of its own - also invalid ones: it is not part of the ROOT schema tree,
+	// whose defaults alone decide whether Resolve succeeds
+	var docs map[string]string
+	ropts := &jsonschema.ResolveOptions{ValidateDefaults: true}
+	mdocs := map[string]any{}
+	if r.IntN(3) == 0 {
+		remote := map[string]any{"type": "string", "default": gen.Pick(r, []any{json.Number("5"), "ok", nil}), "properties": map[string]any{"q": map[string]any{"type": "integer", "default": gen.Pick(r, []any{"bad", json.Number("1")})}}}
+		if d7 {
+			remote["$schema"] = gen.Schema7URI
+		}
+		docs = map[string]string{"http://h/r.json": gen.Text(remote)}
+		mdocs["http://h/r.json"] = gen.Parse(docs["http://h/r.json"])
+		props["viaLoader"] = map[string]any{"$ref": "http://h/r.json"}
+		ld := &mapLoader{docs: docs}
+		ropts.Loader = ld.load
+		ropts.BaseURI = "http://h/root.json"
+	}
 	text := gen.Text(doc)
 	var s jsonschema.Schema
 	var err error
-	if !c.CallChecked("Unmarshal+Resolve(ValidateDefaults)", map[string]any{"schema": json.RawMessage(text)}, func() {
+	if !c.CallChecked("Unmarshal+Resolve(ValidateDefaults)", map[string]any{"schema": json.RawMessage(text), "loader_documents": docs}, func() {
 		if err = json.Unmarshal([]byte(text), &s); err == nil {
-			_, err = s.Resolve(&jsonschema.ResolveOptions{ValidateDefaults: true})
+			_, err = s.Resolve(ropts)
 		}
 	}) {
 		return
 	}
-	m, merr := refmodel.Build(&refmodel.Universe{Draft: draft, Root: gen.Parse(text)})
+	m, merr := refmodel.Build(&refmodel.Universe{Draft: draft, BaseURI: ropts.BaseURI, Root: gen.Parse(text), Docs: mdocs})
 	if merr != nil {
 		return
 	}
